@@ -116,7 +116,12 @@ fn main() {
         },
         Some("selftest") => {
             let n: u64 = args.get(3).and_then(|s| s.parse().ok()).unwrap_or(200);
-            driver::selftest_fingerprints(n, args.get(4).map(|s| s.as_str()))
+            let only = args.get(4).map(|s| s.as_str()).filter(|s| *s != "all");
+            let part = args.get(5).and_then(|s| {
+                let mut it = s.split('/');
+                Some((it.next()?.parse().ok()?, it.next()?.parse().ok()?))
+            });
+            driver::selftest_fingerprints(n, only, part)
         }
         _ => usage(),
     };
